@@ -54,6 +54,10 @@ func (a *vfHamActor) OnReceive(ctx vivid.ActorContext) {
 			ctx.Kill(ctx.Ref(), a.count.Load()%2 == 0, "vf-ham")
 		case "reply":
 			ctx.Reply(&vfHamMsg{Op: "noop"})
+		case "reply2": // two replies from two goroutines: both race for the same future
+			sender := ctx.Sender()
+			go ctx.Tell(sender, &vfHamMsg{Op: "noop"})
+			ctx.Reply(&vfHamMsg{Op: "noop"})
 		}
 	case vfStreamEv0, vfStreamEv1:
 		a.count.Add(1)
@@ -109,6 +113,61 @@ func vfHamTree(sys *System) (registered, unreachable, unlisted []string) {
 	sort.Strings(unreachable)
 	sort.Strings(unlisted)
 	return
+}
+
+// vfHamFutureStorm: one Ask whose future is completed, closed, awaited and piped by 3-8 goroutines released at the same
+// moment, while the reply (or two replies from two goroutines) and a timeout of about the reply latency race with them.
+// Besides the race detector and the crash sentinel there is a one-shot monitor: everything any observer ever gets from
+// Result()/Wait() of that future must be the same (value, error).
+func vfHamFutureStorm(R *verifrt.Report, ci int, sys *System, r vivid.ActorRef, rng *verifrt.Rand) {
+	op := []string{"reply", "reply", "reply2", "noop"}[rng.Intn(4)]
+	to := []time.Duration{20 * time.Microsecond, 100 * time.Microsecond, 500 * time.Microsecond, 5 * time.Millisecond, 50 * time.Millisecond}[rng.Intn(5)]
+	f := sys.Ask(r, &vfHamMsg{Op: op}, to)
+	k := 3 + rng.Intn(6)
+	type obs struct {
+		msg vivid.Message
+		err error
+		set bool
+	}
+	seen := make([]obs, k+1)
+	kinds := make([]int, k)
+	for i := range kinds {
+		kinds[i] = rng.Intn(6)
+	}
+	errA, errB := fmt.Errorf("vf-close-a"), fmt.Errorf("vf-close-b")
+	start := make(chan struct{})
+	var wg sync.WaitGroup
+	for i := 0; i < k; i++ {
+		wg.Add(1)
+		go func(i int) {
+			defer wg.Done()
+			<-start
+			switch kinds[i] {
+			case 0:
+				f.Close(errA)
+			case 1:
+				f.Close(errB)
+			case 2:
+				_ = f.PipeTo(vivid.ActorRefs{r})
+			case 3:
+				_ = f.Wait()
+			default:
+				m, e := f.Result()
+				seen[i] = obs{m, e, true}
+			}
+		}(i)
+	}
+	close(start)
+	wg.Wait()
+	f.Close(errA) // noop if completed; makes sure the final read below cannot block
+	m, e := f.Result()
+	seen[k] = obs{m, e, true}
+	for i := 0; i < k; i++ {
+		if seen[i].set && (seen[i].msg != m || (seen[i].err == nil) != (e == nil) || (e != nil && seen[i].err.Error() != e.Error())) {
+			R.Violate(ci, "c10-future-observers-disagree", "Result", fmt.Sprintf("one future, two observations: (%v, %v) and later (%v, %v); op=%s timeout=%v concurrent callers=%v", seen[i].msg, seen[i].err, m, e, op, to, kinds), nil)
+			break
+		}
+	}
 }
 
 func vfHammerBatch(R *verifrt.Report, ci int, seed uint64, workers int, dur time.Duration, focus string) {
@@ -332,9 +391,9 @@ func TestVerif_hammer(t *testing.T)     { vfHammer(t, "hammer") }
 func TestVerif_hammerfast(t *testing.T) { vfHammer(t, "hammerfast") }
 
 func vfHammer(t *testing.T, check string) {
-	R := verifrt.NewReport(check, "(hammer: under the race detector; hammerfast: the same batches without it, i.e. at full speed, where the runtime's own concurrent-map checks and crashes are the monitor) real-time batches under the race detector: 8-64 goroutines call only what is documented as concurrency-safe (ActorSystem.ActorOf/Tell/Ask/Kill/FindActor, EventStream Subscribe/Unsubscribe/UnsubscribeAll/Publish with the system's stream, every Future method, ActorRef methods on shared refs, ParseRef) for 1.5-4 s while the actors spawn children from their own handlers (depth <= 3), panic / Failed under all five non-escalating decisions with one-for-one and one-for-all strategies, and kill themselves; one child process per batch. Monitors: race reports with a vivid frame (parsed by the driver), process-fatal errors, registry == set reachable from the root through children tables in 3 consecutive samples after the callers stopped, Stop returns. non-trivial+distinct = batches (each a different PRNG stream and worker count)")
+	R := verifrt.NewReport(check, "(hammer: under the race detector; hammerfast: the same batches without it, i.e. at full speed, where the runtime's own concurrent-map checks and crashes are the monitor) real-time batches under the race detector: 8-64 goroutines call only what is documented as concurrency-safe (ActorSystem.ActorOf/Tell/Ask/Kill/FindActor, EventStream Subscribe/Unsubscribe/UnsubscribeAll/Publish with the system's stream, every Future method, ActorRef methods on shared refs, ParseRef; a third of the batches concentrates on the event stream, a third on futures: each Ask's future is closed / awaited / piped by 3-8 goroutines released together while one or two replies and a timeout of about the reply latency race with them, and every observation of one future must be the same) for 1.5-4 s while the actors spawn children from their own handlers (depth <= 3), panic / Failed under all five non-escalating decisions with one-for-one and one-for-all strategies, and kill themselves; one child process per batch. Monitors: race reports with a vivid frame (parsed by the driver), process-fatal errors, registry == set reachable from the root through children tables in 3 consecutive samples after the callers stopped, Stop returns. non-trivial+distinct = batches (each a different PRNG stream and worker count)")
 	defer R.Flush()
-	n := verifrt.EnvInt("VERIF_N", 4)
+	n := verifrt.EnvInt("VERIF_N", 6)
 	dur := 2 * time.Second
 	if verifrt.Thorough() {
 		n, dur = 48, 4*time.Second
@@ -346,9 +405,14 @@ func vfHammer(t *testing.T, check string) {
 		}
 		seed := verifrt.CaseSeed(check, ci)
 		workers := []int{8, 16, 32, 64}[ci%4]
-		focus := []string{"mixed", "eventstream"}[(ci/2)%2]
+		focus := []string{"mixed", "eventstream", "futures"}[(ci/2)%3]
 		R.Journal(ci, fmt.Sprintf("batch workers=%d dur=%v focus=%s", workers, dur, focus))
+		if focus == "futures" {
+			// widen the windows inside future.go (yield points inserted by vinstr; lock-free fuzz mode, see verifrt)
+			verifrt.Begin(verifrt.ModeFuzzFree, seed, 0)
+		}
 		vfHammerBatch(R, ci, seed, workers, dur, focus)
+		verifrt.End()
 		R.Eval()
 		R.Flush()
 	}
